@@ -267,8 +267,9 @@ def run(ctx, crate):
     ok_push = False
     if len(pushes) == 1:
         p = pushes[0]
-        want_guard = [["HashSet::contains(%s, %s)" % (show(("param", 1)), "Node::as_target(%s)" % show(node))]]
-        ok_push = p.args[1] == node and p.guard == want_guard and all(not w.reaches(r.bb, p.bb) for r in rec)
+        # the requested kinds are a set (HashSet) or a plain list of kinds (slice): membership is the same question either way
+        want_guards = [[["%s::contains(%s, %s)" % (c, show(("param", 1)), "Node::as_target(%s)" % show(node))]] for c in ("HashSet", "slice")]
+        ok_push = p.args[1] == node and p.guard in want_guards and all(not w.reaches(r.bb, p.bb) for r in rec)
     obs.append(Ob("R01.preorder", WALKER, "the node itself is pushed first, iff its kind is requested", ok_push,
                   expected="one push(matches, node) guarded exactly by targets.contains(node.as_target()), before any recursion",
                   found=[(show(p.args[1]), S.guard_str(p.guard)) for p in pushes]))
@@ -368,6 +369,23 @@ def run(ctx, crate):
         ss = S.call_sites(b)
         walks = [s for s in ss if s.path == WALKER]
         ins = [s for s in ss if s.path.endswith("::insert") and "HashSet" in s.path]
+        if len(walks) == 1 and not ins:
+            # the kinds are handed on as a list: `&[target]` / `&targets` (the vector itself, as a slice)
+            wk = walks[0]
+            st = wk.args[0]
+            while st[0] == "call" and st[1].rsplit("::", 1)[-1] in ("deref", "as_slice", "as_ref", "borrow") and len(st[2]) == 1:
+                st = st[2][0]
+            if st[0] == "obj":
+                st = st[2]
+            if multi:
+                lst = st == ("param", 1)
+            else:
+                lst = st[0] == "agg" and st[1] == "array" and tuple(st[3]) == (("param", 1),)
+            ok = bool(lst) and wk.args[1] == ("param", 2) and b.val_local(0) == wk.result and not b.loops_of(wk.bb) and wk.guard == [[]]
+            obs.append(Ob("R01.entry", b.path, "requested kinds inserted, walker called once on the unmodified node, its result returned", ok,
+                          found="walk(%s, %s) [list of kinds]" % (show(wk.args[0])[:40], show(wk.args[1]))))
+            obs.append(Ob("R01.entry", b.path, "set of kinds is built from the argument only", bool(lst), found=show(st)[:60]))
+            continue
         ok = len(walks) == 1 and len(ins) == 1
         detail = ""
         if ok:
